@@ -1507,6 +1507,7 @@ class System:
         names, typ, phase = [], [], []
         rs, ii, pwr = [], [], []
         domain, dname = [], "none"
+        ndomain = {}
         phase_names = list(self._g.attrs["phases"].keys())
         self._set_phase_lkup()
         src_cnt = 0
@@ -1515,6 +1516,9 @@ class System:
             if tname == "SOURCE":
                 dname = self._g[n]._params["name"]
                 src_cnt += 1
+            else:
+                dname = ndomain[self._parents[n][0]]
+            ndomain[n] = dname
             ph_names = []
             if tname == "SLOSS":
                 ph_names += ["N/A"]
